@@ -414,6 +414,13 @@ impl Scenario for C14S {
         // message outcome
         let mut nontrivial = false;
         let mids: Vec<i64> = evs.iter().filter(|e| e.op == "send.inv").map(|e| e.a).collect();
+        // one message is queued for the receive inside Deserialize before anything is sent: the first
+        // such receive must get it (later ones find the channel empty, which is fine)
+        if let Some(e) = evs.iter().find(|e| e.op == "inner.recv" || e.op == "inner.recv.err") {
+            if e.op == "inner.recv.err" {
+                out.viol("inner-recv-failed:deserialize", format!("the first receive performed inside a Deserialize impl failed ({}) although its message had been queued beforehand", e.s));
+            }
+        }
         for mid in mids.iter().copied().chain(std::iter::once(9000)) {
             let expect: Vec<(i64, i64, String)> = evs.iter().filter(|e| e.op == "expect" && e.a == mid).map(|e| (e.b, e.c, e.s.clone())).collect();
             let sent_ok = mid == 9000 && n_hooks > 0 || evs.iter().any(|e| e.op == "send.ok" && e.a == mid);
@@ -500,6 +507,12 @@ impl Scenario for C14S {
         out.probe("sends_failed", evs.iter().filter(|e| e.op == "send.err").count() as u64);
         out.probe("sends_ok", evs.iter().filter(|e| e.op == "send.ok").count() as u64);
         out.probe("nested_sends", evs.iter().filter(|e| e.op == "send.inv" && e.b > 0).count() as u64);
+        if blocked.is_empty() && hist::panics().is_empty() {
+            let stray = sim::open_received_fds();
+            if !stray.is_empty() {
+                out.viol("stray-descriptor:recv", format!("{} descriptor(s) arrived with the messages that no part of a value refers to and that nothing closes (ledger ids {:?}): attachments of a failed or nested send rode along", stray.len(), stray));
+            }
+        }
         out.probe("receive_inside_deserialize", evs.iter().filter(|e| e.op == "inner.recv").count() as u64);
         out.probe("observers_closed", evs.iter().filter(|e| e.op == "obs.closed").count() as u64);
         out.sample = json!({"steps": p["steps"], "sent_ok": evs.iter().filter(|e| e.op == "send.ok").count(), "sent_err": evs.iter().filter(|e| e.op == "send.err").count()});
